@@ -48,6 +48,9 @@ def extract(M, net, num=float):
     off = {nid[id(n)]: num(n.beta_off) for n in nodes if getattr(n, "_vf_user", False) and hasattr(n, "beta_off")}
     if off:  # user-defined node kind with its own node rule (vf/userkinds.OffRampNode)
         desc["node_off"] = off
+    blk = {nid[id(n)]: num(n.rho_block) for n in nodes if getattr(n, "_vf_user", False) and getattr(n, "rho_block", None) is not None}
+    if blk:
+        desc["node_block"] = blk
     rev = {}
     k = 0
     for u in nodes:
